@@ -42,9 +42,12 @@ type effAgg struct {
 	bounds int // aHist: index into boundsTable, -1 = the default boundaries
 }
 
-// effective is the documented default aggregation per instrument kind
-// (DefaultAggregationSelector) unless the view names one.
-func effective(viewAgg, bounds, instKind int) effAgg {
+// effective resolves a stream's aggregation as documented: the view's
+// aggregation if the view names one, where AggregationDefault{} "ensures the
+// default is used" (DefaultAggregationSelector(kind), whatever the reader
+// selects); otherwise what the reader's aggregation selector returns for the
+// kind (nil / AggregationDefault{} = the default); otherwise the default.
+func effective(viewAgg, bounds, instKind, readerAgg int) effAgg {
 	switch viewAgg {
 	case vaDrop:
 		return effAgg{aDrop, 0}
@@ -56,6 +59,22 @@ func effective(viewAgg, bounds, instKind int) effAgg {
 		return effAgg{aHist, bounds}
 	case vaExpo:
 		return effAgg{aExpo, 0}
+	}
+	if viewAgg == vaNone {
+		switch readerAgg {
+		case raDrop:
+			return effAgg{aDrop, 0}
+		case raExpo:
+			return effAgg{aExpo, 0}
+		case raHist2:
+			return effAgg{aHist, 2}
+		case raHist3:
+			return effAgg{aHist, 3}
+		case raSum:
+			return effAgg{aSum, 0}
+		case raLast:
+			return effAgg{aLast, 0}
+		}
 	}
 	switch {
 	case gaugeKind(instKind):
@@ -106,9 +125,13 @@ type mstream struct {
 	limit    int
 	sources  []int
 
-	view         int // index of the view that created the stream, -1 = implicit default
-	undetermined bool
-	blame        int // view to remove to make the stream determined
+	view int // index of the view that created the stream, -1 = implicit default
+	// the reader selects a non-default aggregation for the kind and ...
+	explicitDefault bool // ... the view overrides it with AggregationDefault{}
+	readerChosen    bool // ... the stream takes it (view without aggregation / no view)
+	scopeEver       bool // at least one measurement reached the stream
+	undetermined    bool
+	blame           int // view to remove to make the stream determined
 
 	// state of the current lifetime
 	identified []string // sets that kept their identity, in arrival order
@@ -273,10 +296,22 @@ func resolveAll(c Case, limit int) []*readerModel {
 				if unit == "" {
 					unit = in.Unit
 				}
-				add(i, in, vi, name, unit, effective(v.Agg, v.Bounds, in.Kind), v.Filter, v.Keys)
+				ra := c.selectorOf(r, in.Kind)
+				before := len(rm.streams)
+				add(i, in, vi, name, unit, effective(v.Agg, v.Bounds, in.Kind, ra), v.Filter, v.Keys)
+				if len(rm.streams) > before && !readerAggIsDefault(ra, in.Kind) {
+					ns := rm.streams[len(rm.streams)-1]
+					ns.explicitDefault = v.Agg == vaDefault
+					ns.readerChosen = v.Agg == vaNone
+				}
 			}
 			if !matched {
-				add(i, in, -1, instName(i), in.Unit, effective(vaNone, 0, in.Kind), 0, nil)
+				ra := c.selectorOf(r, in.Kind)
+				before := len(rm.streams)
+				add(i, in, -1, instName(i), in.Unit, effective(vaNone, 0, in.Kind, ra), 0, nil)
+				if len(rm.streams) > before && !readerAggIsDefault(ra, in.Kind) {
+					rm.streams[len(rm.streams)-1].readerChosen = true
+				}
 			}
 		}
 		// different identities that look the same in the output
@@ -392,6 +427,7 @@ func (s *mstream) measure(setIdx int, set []vk.KV, rawKey string, v float64) {
 	p.last = v
 	s.scopeSum += v
 	s.scopeCount++
+	s.scopeEver = true
 }
 
 type expPoint struct {
